@@ -1218,16 +1218,35 @@ def ws_differential(ctx, cexe, cases, chunks, cc, base):
         picked.append(j)
     if ctx.quick():
         picked = picked[::4]
-    wl = []
+    # framings of the same byte stream: 1 = one unfragmented binary message per fragment, 2 = every fragment a
+    # fragmented message (binary FIN=0, continuation ..., continuation FIN=1), 3 = as 2 with ping/pong control frames
+    # between the fragments and between the messages (RFC 6455 5.4/5.5)
+    jobs = []
     for n, j in enumerate(picked):
+        k = cases[j].kind.split("-")[0]
+        modes = (1, 2, 3) if k in ("single", "burst", "scale", "cutlimit") else (1,)
+        if ctx.quick() and len(modes) == 3:
+            modes = (1, (2, 3)[n % 2])
+        for m in modes:
+            jobs.append((j, m))
+    wl = []
+    for n, (j, m) in enumerate(jobs):
         lines = chunks[base + j]
-        wl.append(["case %d ws-%s" % (n, cases[j].kind)] + [("ws" + l) if l.startswith("connect ") else l for l in lines[1:]])
+        out_lines = ["case %d ws%d-%s" % (n, m, cases[j].kind)]
+        for l in lines[1:]:
+            if l.startswith("connect "):
+                out_lines.append("ws" + l + " %d" % m)
+            else:
+                out_lines.append(l)
+                if m > 1 and l.startswith("send "):
+                    out_lines += ["p", "p"]          # control frames may use up passes: serve everything that was sent
+        wl.append(out_lines)
     if not wl:
         return
     rc, out, err = vlib.run_driver(cexe, "\n".join("\n".join(x) for x in wl) + "\n", timeout=1500)
     wc = vlib.split_cases(out)
     ndiff = 0
-    for n, j in enumerate(picked):
+    for n, (j, m) in enumerate(jobs):
         tl = cc[base + j][1] if base + j < len(cc) else []
         wlns = wc[n][1] if n < len(wc) else []
         te, we = events_of(tl), events_of(wlns)
@@ -1240,13 +1259,15 @@ def ws_differential(ctx, cexe, cases, chunks, cc, base):
                 i = 0
                 while i < len(te) and i < len(we) and te[i] == we[i]:
                     i += 1
-                ctx.violation("input delivery depends on the transport: over WebSocket frames the application gets %s as callback #%d "
+                how = {1: "unfragmented binary messages", 2: "fragmented messages", 3: "fragmented messages with ping/pong frames in between"}[m]
+                ctx.violation("input delivery depends on the transport: over WebSocket (%s) the application gets %s as callback #%d "
                               "(%d callbacks, final state %s), over plain TCP %s (%d callbacks, final state %s) for the same client bytes"
-                              % (we[i] if i < len(we) else "<nothing>", i, len(we), wlns[-1].split(" cl=")[-1][:80] if wlns else "?",
+                              % (how, we[i] if i < len(we) else "<nothing>", i, len(we), wlns[-1].split(" cl=")[-1][:80] if wlns else "?",
                                  te[i] if i < len(te) else "<nothing>", len(te), tl[-1].split(" cl=")[-1][:80] if tl else "?"),
-                              {"kind": "ws_differential"},
+                              {"kind": "ws_differential", "framing": m},
                               "script:\n" + "\n".join(l[:4000] for l in wl[n]) + "\n\nimplementation output (WebSocket):\n" +
                               "\n".join(wlns)[:12000] + "\n\nimplementation output (TCP):\n" + "\n".join(tl)[:12000])
+    picked = jobs
     ctx.coverage["ws_differential_cases"] = len(picked)
     ctx.coverage["ws_differential_differences"] = ndiff
     ctx.coverage.setdefault("input_distribution", {})["ws-differential(impl vs impl)"] = len(picked)
@@ -1258,7 +1279,7 @@ def ext_viewonly_part(ctx):
     import C18
     os.makedirs(os.path.join(vlib.VERIF, "build", "ocaml", "C18"), exist_ok=True)
     os.makedirs(os.path.join(vlib.BUILD, "ocaml", "C18"), exist_ok=True)
-    cexe = vlib.build_harness("vdrv_clip", ["vdrv_clip.c"], wraps=C18.WRAPS, client=True)
+    cexe = vlib.build_harness("vdrv_clip", ["vdrv_clip.c"], wraps=C18.WRAPS, client=True, extra_cflags=C18.clip_cflags())
     ok, out = vlib.coq_make(["Extract/Extract_C18.vo"])
     src = os.path.join(vlib.VERIF, "build", "ocaml", "C18")
     dst = os.path.join(vlib.BUILD, "ocaml", "C18")
